@@ -194,6 +194,9 @@ func main() {
 		emit(map[string]interface{}{"start": p.Seed, "i": i})
 		curPlan = p
 		res := runOne(w, p, img, kn)
+		if mode == "batch" {
+			res.BatchFirst = *seed0
+		}
 		if res.Verdict == "ok" && i < *sample {
 			res.Plan = p
 		}
